@@ -903,6 +903,8 @@ def oracle(prop, case, out):
 
 
 PROP_KINDS = {
+    # C02 names "work inside a nested child" among the wake-ups a simulation run must honour
+    "C02": {"wake_lost", "wake_lost_after_captured_error", "child_early", "child_clock_ahead", "build_error"},
     "C09": {"nested_differs", "child_early", "child_clock_ahead", "child_outside_owner", "cycle_order", "node_outside_cycle",
             "wake_lost", "stale_read", "run_stopped", "trace_shape", "build_error", "phantom_tick_forwarding_rebind", "phantom_tick"},
     "C15": {"run_stopped", "uncaptured_swallowed", "error_tick_missing", "error_tick_twice", "error_message", "error_tick_spurious",
